@@ -60,7 +60,7 @@ def run(ctx):
                                                       emit="ACTION_CONSTRAINT EmitWrites", inv=""),
                           "pairs", workers=4, timeout=2400)
     # triples over the names that are prefixes of one another / adjacent in byte order / contain the separator
-    scripts += ctx.tlc_gen("MC_KvTenants", GEN.format(ids="{1}", names="NamesCore", maxt=3, maxw=2 if q else 3, reject="FALSE",
+    scripts += ctx.tlc_gen("MC_KvTenants", GEN.format(ids="{1}", names="NamesCore", maxt=3, maxw=2 if q else 4, reject="FALSE",
                                                        emit="ACTION_CONSTRAINT EmitWrites", inv=""),
                            "triples", workers=4, timeout=2400)
     # two ids per tenant (id order inside a tenant's key range) on separator-free names
